@@ -603,6 +603,13 @@ func leanStrList(xs []string) string {
 	return "[\n  " + strings.Join(q, ",\n  ") + "]"
 }
 
+// the type-checked packages and the call closure of the C15 API, kept for genStrLoop (strloop.go)
+var (
+	sharedAn      *analysis
+	sharedBtc     *loadedPkg
+	sharedClosure []*types.Func
+)
+
 // genShared writes Gen/C15Shared.lean and returns the number of regenerated definitions.
 func genShared() (int, error) {
 	fset := token.NewFileSet()
@@ -651,6 +658,7 @@ func genShared() (int, error) {
 	}
 	// the public-key derivation behind NewPrivateAddr belongs to C14/C08 (secp256k1 tables), not to the string codec
 	stop := map[string]bool{"btc.PublicFromPrivate": true}
+	sharedAn, sharedBtc, sharedClosure = an, btc, an.closure(roots, stop) // for strloop.go
 	readSet, writeSet, syncSet := map[string]bool{}, map[string]bool{}, map[string]bool{}
 	scan := func(fs []*types.Func) (writes []finding) {
 		for _, f := range fs {
